@@ -17,6 +17,7 @@
 #include "nmtools/array/view/sum.hpp"
 #include "nmtools/array/view/ufuncs/add.hpp"
 #include "nmtools/array/view/atleast_nd.hpp"
+#include "nmtools/array/view/where.hpp"
 #include "nmtools/array/view/flatten.hpp"
 #include "nmtools/array/eval.hpp"
 #include "nmtools/utility/has_value.hpp"
@@ -73,6 +74,9 @@ std::string handle(const std::string& op, const Args& a) {
     if (op=="repeat")       { int r = (int)integer(a,"repeats"); int ax = (int)integer(a,"axis"); return outcome_eval(view::repeat(x, r, ax)); }
     if (op=="roll")         { int sh = (int)integer(a,"shift"); int ax = (int)integer(a,"axis"); return outcome_eval(view::roll(x, sh, ax)); }
     if (op=="sum")          { int ax = (int)integer(a,"axis"); return outcome_eval(view::sum(x, ax)); }
+    if (op=="where3")       { nd_t y = iota(nats(a,"shape2"), 1000); nd_t z = iota(nats(a,"shape3"), 2000);
+                              nd_t c = iota(shape); for (size_t k=0;k<(size_t)nm::size(c);k++) c.data()[k] = (int)(k%2);
+                              return outcome_eval(view::where(c, y, z)); }
     // pipelines: a failing first stage must propagate (never be dereferenced)
     if (op=="pipe_reshape_transpose") { auto t = intsi(a,"to"); return outcome_eval(view::transpose(view::reshape(x, t))); }
     if (op=="pipe_reshape_sum")       { auto t = intsi(a,"to"); int ax = (int)integer(a,"axis"); return outcome_eval(view::sum(view::reshape(x, t), ax)); }
